@@ -371,7 +371,7 @@ func (e *Engine) findAdaptiveAt(haystack []byte, at int) *Match {
 
 // findReverseAnchored searches using reverse DFA for end-anchored patterns.
 func (e *Engine) findReverseAnchored(haystack []byte) *Match {
-	if e.reverseSearcher == nil {
+	if e.reverseSearcher == nil || e.longest {
 		// Fallback to NFA if reverse searcher not available
 		return e.findNFA(haystack)
 	}
@@ -382,7 +382,7 @@ func (e *Engine) findReverseAnchored(haystack []byte) *Match {
 
 // findReverseSuffix searches using suffix literal prefilter + reverse DFA.
 func (e *Engine) findReverseSuffix(haystack []byte) *Match {
-	if e.reverseSuffixSearcher == nil {
+	if e.reverseSuffixSearcher == nil || e.longest {
 		// Fallback to NFA if reverse suffix searcher not available
 		return e.findNFA(haystack)
 	}
@@ -393,7 +393,7 @@ func (e *Engine) findReverseSuffix(haystack []byte) *Match {
 
 // findReverseSuffixSet searches using Teddy multi-suffix prefilter + reverse DFA.
 func (e *Engine) findReverseSuffixSet(haystack []byte) *Match {
-	if e.reverseSuffixSetSearcher == nil {
+	if e.reverseSuffixSetSearcher == nil || e.longest {
 		return e.findNFA(haystack)
 	}
 
@@ -403,7 +403,7 @@ func (e *Engine) findReverseSuffixSet(haystack []byte) *Match {
 
 // findReverseInner searches using inner literal prefilter + bidirectional DFA.
 func (e *Engine) findReverseInner(haystack []byte) *Match {
-	if e.reverseInnerSearcher == nil {
+	if e.reverseInnerSearcher == nil || e.longest {
 		// Fallback to NFA if reverse inner searcher not available
 		return e.findNFA(haystack)
 	}
@@ -415,7 +415,7 @@ func (e *Engine) findReverseInner(haystack []byte) *Match {
 // findMultilineReverseSuffix searches using line-aware suffix prefilter + reverse DFA.
 // This handles multiline patterns like (?m)^/.*\.php where ^ matches at line starts.
 func (e *Engine) findMultilineReverseSuffix(haystack []byte) *Match {
-	if e.multilineReverseSuffixSearcher == nil {
+	if e.multilineReverseSuffixSearcher == nil || e.longest {
 		// Fallback to NFA if multiline reverse suffix searcher not available
 		return e.findNFA(haystack)
 	}
@@ -426,7 +426,7 @@ func (e *Engine) findMultilineReverseSuffix(haystack []byte) *Match {
 
 // findMultilineReverseSuffixAt searches using line-aware suffix prefilter at position.
 func (e *Engine) findMultilineReverseSuffixAt(haystack []byte, at int) *Match {
-	if e.multilineReverseSuffixSearcher == nil {
+	if e.multilineReverseSuffixSearcher == nil || e.longest {
 		return e.findNFAAt(haystack, at)
 	}
 
